@@ -5,7 +5,9 @@ package main
 import (
 	"fmt"
 	"os"
+	"os/signal"
 	"runtime/debug"
+	"syscall"
 
 	"go.etcd.io/bbolt/zverif/checks"
 	"go.etcd.io/bbolt/zverif/hx"
@@ -35,8 +37,44 @@ var table = map[string]func(tier string) int{
 	"C20": checks.C20,
 }
 
+// runDir is the per-run scratch directory on tmpfs; every worker process creates its files below it (VERIF_TMP),
+// and the coordinator removes it when the run ends, also when workers were killed.
+var runDir string
+
+func setupRunDir() {
+	if os.Getenv("VERIF_WORKER") != "" {
+		return
+	}
+	base := os.Getenv("VERIF_TMP")
+	if base == "" {
+		base = "/dev/shm"
+	}
+	d, err := os.MkdirTemp(base, "vfrun")
+	if err != nil {
+		return
+	}
+	runDir = d
+	os.Setenv("VERIF_TMP", d)
+	ch := make(chan os.Signal, 1)
+	signal.Notify(ch, syscall.SIGINT, syscall.SIGTERM)
+	go func() {
+		<-ch
+		os.RemoveAll(runDir)
+		os.Exit(130)
+	}()
+}
+
+func exit(code int) {
+	hx.CleanWorkDir()
+	if runDir != "" {
+		os.RemoveAll(runDir)
+	}
+	os.Exit(code)
+}
+
 func main() {
 	debug.SetPanicOnFault(true)
+	setupRunDir()
 	if len(os.Args) < 3 && !(len(os.Args) == 2 && os.Args[1] == "golden") {
 		fmt.Fprintln(os.Stderr, "usage: vcheck <property> <quick|thorough> | vcheck worker <kind> | vcheck replay <file>")
 		os.Exit(2)
@@ -59,7 +97,7 @@ func main() {
 		}
 		return
 	case "golden":
-		os.Exit(checks.GoldenWrite())
+		exit(checks.GoldenWrite())
 	case "job":
 		f := checks.JobFuncs[os.Args[2]]
 		if f == nil {
@@ -67,10 +105,9 @@ func main() {
 			os.Exit(2)
 		}
 		fmt.Println(string(f([]byte(os.Args[3]))))
-		hx.CleanWorkDir()
-		return
+		exit(0)
 	case "replay":
-		os.Exit(checks.Replay(os.Args[2]))
+		exit(checks.Replay(os.Args[2]))
 	}
 	f := table[os.Args[1]]
 	if f == nil {
@@ -81,7 +118,5 @@ func main() {
 	if t := os.Getenv("VERIF_TIER"); t != "" && tier == "" {
 		tier = t
 	}
-	code := f(tier)
-	hx.CleanWorkDir()
-	os.Exit(code)
+	exit(f(tier))
 }
